@@ -256,6 +256,50 @@ fn run_codec_vectors(out: &mut impl Write) {
     }
 }
 
+
+/// file-level vectors: `<id> <output path> <spec>`; spec = fn ("/" fn)*, fn = hex6(name) (";" instr)*, instr = opcode ("," hex6(arg))*.
+/// Builds the CompiledItem::Function list and writes it with the REAL `perform_file_io_out` (binary form).
+pub(crate) fn parse_file_spec(spec: &str) -> Vec<(String, Vec<(u8, Vec<String>)>)> {
+    spec.split('/').map(|f| {
+        let mut parts = f.split(';');
+        let name = dehex(parts.next().unwrap());
+        let ins = parts.filter(|p| !p.is_empty()).map(|i| {
+            let mut t = i.split(',');
+            let op: u8 = t.next().unwrap().parse().unwrap();
+            (op, t.map(|h| dehex(h)).collect())
+        }).collect();
+        (name, ins)
+    }).collect()
+}
+
+fn run_file_vectors(out: &mut impl Write) {
+    let Ok(path) = std::env::var("VERIF_FILE_VECTORS") else { return };
+    std::panic::set_hook(Box::new(|_| {}));
+    // `perform_file_io_out` asks the global logger for a progress bar; a quiet logger, as `compile(.., verbose=false, ..)` installs
+    let _ = crate::LOGGER_INSTANCE.set(crate::VerboseLogger::new(false));
+    for line in std::fs::read_to_string(path).expect("vectors").lines() {
+        let t: Vec<&str> = line.split_whitespace().collect();
+        if t.len() < 3 {
+            continue;
+        }
+        let r = std::panic::catch_unwind(std::panic::AssertUnwindSafe(|| {
+            use crate::ast::{CompiledFunctionId, CompiledItem};
+            let loc = std::sync::Arc::new(std::path::PathBuf::from(t[1]));
+            let items: Vec<CompiledItem> = parse_file_spec(t[2]).into_iter().map(|(name, ins)| CompiledItem::Function {
+                id: CompiledFunctionId::Custom(name),
+                content: Some(ins.into_iter().map(|(op, args)| CompiledItem::Instruction { id: op, arguments: args.into_boxed_slice() }).collect()),
+                location: loc.clone(),
+            }).collect();
+            match crate::perform_file_io_out(std::path::Path::new(t[1]), &items, true) {
+                Ok(()) => "OK".to_string(),
+                Err(_) => "WRITER-ERR".to_string(),
+            }
+        }))
+        .unwrap_or_else(|_| "PANIC".to_string());
+        writeln!(out, "file {} {}", t[0], r).unwrap();
+    }
+}
+
 #[test]
 fn verif_native_run() {
     let out_path = match std::env::var("VERIF_RESULTS") {
@@ -265,6 +309,7 @@ fn verif_native_run() {
     let mut out = std::io::BufWriter::new(std::fs::File::create(&out_path).expect("results"));
     run_fold_vectors(&mut out);
     run_codec_vectors(&mut out);
+    run_file_vectors(&mut out);
     let flags = TypecheckFlags::<&ClassType>::classless();
     for (ln, l) in kinds() {
         for (rn, r) in kinds() {
